@@ -1752,6 +1752,25 @@ pub fn gen_program(rng: &mut Rng, cfg: &GenCfg) -> GenProgram {
             features.push("ast_mutation");
         }
     }
+    // the caller may bind more globals than the file declares: a local definition of such a name
+    // is a duplicate-variable error at run time (the checker cannot know about it)
+    let mut globals = globals;
+    if cfg.fault_pct > 0 && g.rng.chance(cfg.fault_pct, 300) {
+        let mut names: Vec<String> = Vec::new();
+        file.walk_stmts(&mut |_si, _d, st| match &st.kind {
+            StmtKind::Let(GVar::Unscoped(u), _) | StmtKind::Var(GVar::Unscoped(u), _) | StmtKind::Node(GVar::Unscoped(u)) => names.push(u.name.clone()),
+            StmtKind::For(u, _, _) => names.push(u.name.clone()),
+            _ => {}
+        });
+        if !names.is_empty() {
+            let name = g.rng.pick(&names).clone();
+            if !globals.contains_key(&name) {
+                let v = if g.rng.chance(1, 2) { crate::model::value::MVal::Int(7) } else { crate::model::value::MVal::str("undeclared global") };
+                globals.insert(name, v);
+                fault = Some(fault.map(|f| format!("{}+undeclared_global_named_like_a_local", f)).unwrap_or_else(|| "undeclared_global_named_like_a_local".to_string()));
+            }
+        }
+    }
     GenProgram {
         file,
         globals,
